@@ -200,7 +200,7 @@ def rule_queue_drain(ctx: Ctx, prog: Program) -> None:
                     for c in sol:
                         args = [as_view(x) for x in c.args]
                         ra = _call_result(bp.events, c)
-                        if (len(args) == 2 and isinstance(args[0], View) and args[0] == View(a.stack, ()) and args[1] == View(a.top, ())
+                        if (len(args) >= 2 and isinstance(args[0], View) and args[0] == View(a.stack, ()) and args[1] == View(a.top, ())  # (what is_solved tests is R-SOLVED's business)
                                 and ra is not None and bp.state.facts.decide(("ne0", ra)) is True):
                             oks = True
                     if not oks:
@@ -564,6 +564,7 @@ def rule_flags_writers(ctx: Ctx, prog: Program, thorough: bool = False) -> None:
                 ctx.floor(f"R-FLAGS-WRITERS:{a.mode}:bc-clears", n, 1)
             continue
         loc = fn.loc()
+        refuse_unmodelled_algorithm(prog, fn)
         ctx.violation("R-FLAGS-WRITERS", fn.path, fn.qualname, "unexpected-writer", loc,
                       f"{fn.qualname} writes the enabled-constraints stack; only cp_init, cp_put and the entailment branch of the "
                       "propagation loop may")
@@ -621,6 +622,16 @@ def _stores_through(fn: FuncInfo, param: str) -> bool:
     return False
 
 
+def refuse_unmodelled_algorithm(prog: Program, fn: FuncInfo) -> None:
+    """The who-may-write rules name the owners of the engine's state.  A function registered as a *consistency algorithm* is a new owner by
+    construction: it legitimately writes domains, flags, queue and statistics, and whether it does so correctly is what the propagation-loop
+    rules decide for the two algorithms they have a model of.  For a third one the honest answer is 'not analysed' (exit 2), not 'violation'."""
+    reg = prog.registry("CONSISTENCY_ALG_FCTS")
+    if any(isinstance(e_, FuncInfo) and e_.fq == fn.fq for e_ in list(reg.entries) + list(reg.extra)):
+        raise AnalysisError(f"{fn.qualname} is a registered consistency algorithm this checker has no model of (known: bound_consistency_algorithm, "
+                            "shaving_consistency_algorithm): its stores into the engine's state cannot be vouched for")
+
+
 # ------------------------------------------------------------ R-ANNOUNCE: who writes the domain stack
 STACK_WRITERS = {
     # function -> the rule that establishes that its stores are announced before the next propagation pass
@@ -652,9 +663,15 @@ def rule_stack_writers(ctx: Ctx, prog: Program, thorough: bool = False) -> None:
             continue
         n += 1
         ctx.fn(fn.fq)
+        registered_value_heuristic = any(isinstance(e_, FuncInfo) and e_.fq == fn.fq for e_ in prog.registry("DOM_HEURISTIC_FCTS").entries)
         if fn.name in STACK_WRITERS:
             ctx.ok("R-ANNOUNCE", f"writer {fn.name}: covered by {STACK_WRITERS[fn.name]}", nontrivial=False)
+        elif registered_value_heuristic:
+            # every registered value heuristic is interpreted by R-PARTITION / R-BRANCH-EVENTS (whatever its name), and solve_one announces
+            # what it returns (R-HANDOVER)
+            ctx.ok("R-ANNOUNCE", f"writer {fn.name}: a registered value heuristic, covered by R-BRANCH-EVENTS + R-HANDOVER", nontrivial=False)
         else:
+            refuse_unmodelled_algorithm(prog, fn)
             ctx.violation("R-ANNOUNCE", fn.path, fn.qualname, "unexpected-stack-writer", fn.loc(),
                           f"{fn.qualname} stores into the domain stack but no rule establishes that the change is announced to the watching constraints "
                           "before the next propagation pass (writers known to the protocol: " + ", ".join(sorted(STACK_WRITERS)) + ")")
